@@ -69,6 +69,9 @@ fn u16_to_ne_bytes(x: u16) -> (r: [u8; 2]) ensures u16_of(r[0], r[1]) == x as in
 //@enum file=yarel/src/scanner.rs name=TokenKind
 //@struct file=yarel/src/compiler.rs name=Local
 //@struct file=yarel/src/compiler.rs name=Upvalue
+// Root<ObjFunction>: the finished function object (opaque here)
+#[verifier::external_body]
+pub struct FnRoot { _p: u8 }
 //@enum file=yarel/src/compiler.rs name=CompilerError
 //@enum file=yarel/src/compiler.rs name=FunctionKind eq=1
 //@struct file=yarel/src/object.rs name=ObjFunction
@@ -875,6 +878,19 @@ impl Parser {
     //@  ensures final(self).pwf(), old(self).same_but_code(final(self))
     //@  ensures byte_operand(opcode) ==> final(self).code() == old(self).code().push(opcode_byte(opcode)).push(variable as u8)
     //@  ensures !byte_operand(opcode) ==> final(self).code().len() == old(self).code().len() + 3 && final(self).code().subrange(0, old(self).code().len() as int) == old(self).code() && final(self).code()[old(self).code().len() as int] == opcode_byte(opcode) && u16_of(final(self).code()[old(self).code().len() as int + 1], final(self).code()[old(self).code().len() as int + 2]) == variable
+    //@end
+
+    // finalise_compiler: every function's code ENDS with the implicit return — whatever the body ends in (a byte equal to
+    // the Return opcode may be an operand, and a trailing `return` may be jumped over by the branch before it), so no
+    // path of a finished function runs past the end of its code. Only the statements before the compiler is popped are
+    // verified (the allocation of the function object is a stub).
+    #[verifier::external_body]
+    fn finish_function(&mut self) -> (r: (FnRoot, Vec<Upvalue>)) { unimplemented!() }
+    //@fn file=yarel/src/compiler.rs path=Parser::finalise_compiler ret=r props=C04
+    //@  sig "(Root<ObjFunction>, Vec<Upvalue>)" => "(FnRoot, Vec<Upvalue>)"
+    //@  truncate_at "let mut compiler = self.compilers.pop()" => "self.finish_function()"
+    //@  requires old(self).pwf()
+    //@  assert @a_finished_function_ends_in_the_implicit_return_whatever_its_body_ends_in before_stmt "self.finish_function()" self.code().len() >= old(self).code().len() + 2 && self.code().subrange(0, old(self).code().len() as int) == old(self).code() && self.code().last() == opcode_byte(OpCode::Return) && (self.code()[old(self).code().len() as int] == opcode_byte(OpCode::Nil) || self.code()[old(self).code().len() as int] == opcode_byte(OpCode::GetLocal))
     //@end
 
     //@fn file=yarel/src/compiler.rs path=Parser::emit_return props=C04
